@@ -192,7 +192,7 @@ func main() {
 	// filter by property: explicit clause tags restrict; function-level tags are inherited by the closure
 	var sel []*Oblig
 	for _, o := range obls {
-		if o.Kind != "goal" || *prop == "" || *fnFlag != "" || o.Props == nil || hasProp(o.Props, *prop) || !explicitTags(cf, o) {
+		if o.Kind != "goal" || *prop == "" || *fnFlag != "" || o.Props == nil || hasProp(o.Props, "AUX") || hasProp(o.Props, *prop) || !explicitTags(cf, o) {
 			sel = append(sel, o)
 		}
 	}
@@ -239,7 +239,13 @@ func main() {
 				rep.Samples = append(rep.Samples, fmt.Sprintf("%s [path %s] %s %dms", o.Name, o.Path, o.Backend, o.Ms))
 			}
 		} else {
-			rep.Failed = append(rep.Failed, FailedOb{o.Name, o.Func, o.Path, o.Pos, o.Output})
+			nm := o.Name
+			if hasProp(o.Props, "AUX") {
+				// auxiliary (implementation-level) clause: stronger than any property; a failure makes the
+				// proofs that rely on it undecided, it is not itself a property violation
+				nm = "engine/" + o.Func + ": auxiliary clause " + o.Name + " no longer holds"
+			}
+			rep.Failed = append(rep.Failed, FailedOb{nm, o.Func, o.Path, o.Pos, o.Output})
 			if *verbose {
 				fmt.Printf("FAILED %s  path=%s pos=%s\n   %s\n", o.Name, o.Path, o.Pos, o.Output)
 			}
